@@ -154,7 +154,7 @@ Lemma copy_s_to_m_spec s m x fid :
   data_len new <= 2048 /\
   (* an EOF is emitted only after the buffer drained and the reader is shut *)
   (m_sw m = false -> m_sw m' = true -> s_buf s' = [] /\ s_sr s = true /\
-     exists pre, new = pre ++ [mkSF (m_chan m) CEof [] (Some fid)]) /\
+     exists pre, new = pre ++ [mkSF (m_chan m) CEof [] (Some fid)] /\ Forall (fun f => sf_cmd f = CData) pre) /\
   (m_sw m' = m_sw m -> Forall (fun f => sf_cmd f = CData) new).
 Proof.
   unfold copy_s_to_m.
@@ -200,7 +200,7 @@ Proof.
       * rewrite data_cat_app, Hflat. subst new2. destruct (m_sw m); cbn; rewrite ?app_nil_r; reflexivity.
       * intros H. rewrite data_cat_app, (Htf H). subst new2. destruct (m_sw m); reflexivity.
       * rewrite data_len_app. subst new2. destruct (m_sw m); cbn; lia.
-      * intros Hf _. splits; auto. exists new1. rewrite Hn2, Hf. reflexivity.
+      * intros Hf _. splits; auto. exists new1. rewrite Hn2, Hf. split; [reflexivity|exact Hall].
       * intros Heq. rewrite Hsw in Heq. rewrite Hn2, <- Heq, app_nil_r. exact Hall.
     + exists new1. splits; auto using muxw_mono_refl.
       * intros H. rewrite (Htf H). reflexivity.
